@@ -41,6 +41,54 @@ def _factory_names(node, env, helpers, seen=None):
     return out, same
 
 
+class _Specialise(ast.NodeTransformer):
+    """decompose() specialised to one value of a boolean constructor flag stored as self.<attr>"""
+    def __init__(self, attr, val):
+        self.attr, self.val = attr, val
+
+    def _test(self, t):
+        if isinstance(t, ast.Attribute) and isinstance(t.value, ast.Name) and t.value.id == "self" and t.attr == self.attr:
+            return self.val
+        if isinstance(t, ast.UnaryOp) and isinstance(t.op, ast.Not):
+            v = self._test(t.operand)
+            return None if v is None else (not v)
+        return None
+
+    def visit_IfExp(self, node):
+        v = self._test(node.test)
+        if v is None:
+            return self.generic_visit(node)
+        return self.visit(node.body if v else node.orelse)
+
+    def visit_If(self, node):
+        v = self._test(node.test)
+        if v is None:
+            return self.generic_visit(node)
+        body = node.body if v else node.orelse
+        out = []
+        for st in body:
+            r = self.visit(st)
+            out += r if isinstance(r, list) else [r]
+        return out or [ast.Pass()]
+
+
+def _bool_flags(init):
+    """constructor parameters with a boolean default that are stored as self.<attr>: name -> (position, default, attr)"""
+    if init is None:
+        return {}
+    params = [a.arg for a in init.args.args][1:]
+    defaults = init.args.defaults
+    dmap = dict(zip(params[len(params) - len(defaults):], defaults))
+    flags = {}
+    for st in init.body:
+        if isinstance(st, ast.Assign) and len(st.targets) == 1 and isinstance(st.targets[0], ast.Attribute) \
+                and isinstance(st.targets[0].value, ast.Name) and st.targets[0].value.id == "self" \
+                and isinstance(st.value, ast.Name) and st.value.id in dmap \
+                and isinstance(dmap[st.value.id], ast.Constant) and isinstance(dmap[st.value.id].value, bool):
+            flags[st.value.id] = (params.index(st.value.id), dmap[st.value.id].value, st.targets[0].attr)
+    return flags
+
+
 def _returns_gate_itself(func):
     for n in ast.walk(func):
         if isinstance(n, ast.Return) and n.value is not None:
@@ -84,6 +132,23 @@ def pass_summaries():
                 keep = _returns_gate_itself(funcs["decompose"]) or same
                 res[node.name] = {"targets": targets,
                                   "outs": {t: sorted(outs | ({t} if keep else set())) for t in targets}}
+                # boolean constructor flags that select between returns of decompose(): output names per flag value,
+                # read off the specialised body (nothing about the flag's meaning is assumed)
+                flags = {}
+                for pname, (pos, default, attr) in _bool_flags(funcs.get("__init__")).items():
+                    if not any(isinstance(m, ast.Attribute) and isinstance(m.value, ast.Name) and m.value.id == "self"
+                               and m.attr == attr for m in ast.walk(funcs["decompose"])):
+                        continue
+                    per = {}
+                    for val in (True, False):
+                        import copy
+                        f2 = ast.fix_missing_locations(_Specialise(attr, val).visit(copy.deepcopy(funcs["decompose"])))
+                        o2, s2 = _factory_names(f2, env, helpers)
+                        k2 = _returns_gate_itself(f2) or s2
+                        per["true" if val else "false"] = {t: sorted(o2 | ({t} if k2 else set())) for t in targets}
+                    flags[pname] = {"pos": pos, "default": default, "outs": per}
+                if flags:
+                    res[node.name]["flags"] = flags
             elif "GateDecomposer" in bases and node.name.endswith("Transpiler") and "is_target_gate" in funcs:
                 src = ast.unparse(funcs["is_target_gate"])
                 outs, same = _factory_names(funcs["decompose"], env, helpers)
@@ -175,8 +240,18 @@ def _expand_stage(st, summ):
             raise TranslateError(f"stage class {cls} has no summary")
         s = summ[cls]
         outs = dict(s["outs"])
-        if cls == "RZ2NamedTranspiler" and ("False" in list(args) + list((kw or {}).values())):
-            outs = {t: [o for o in v if o not in ("T", "Tdag")] for t, v in outs.items()}
+        for pname, fl in s.get("flags", {}).items():
+            given = (kw or {}).get(pname)
+            if given is None and fl["pos"] < len(args):
+                given = list(args)[fl["pos"]]
+            if given is None:
+                val = fl["default"]
+            elif given in ("True", "False"):
+                val = given == "True"
+            else:
+                continue      # not a literal: keep the union of both values
+            sel = fl["outs"]["true" if val else "false"]
+            outs = {t: [o for o in outs[t] if o in sel[t]] for t in outs}
         return [(t, outs[t]) for t in s["targets"]]
     if "par" in st:
         pairs = []
